@@ -1,5 +1,6 @@
 # -*- coding: utf-8 -*-
 
+import copy
 
 from vsg import parser, violation
 from vsg.rule_group import structure
@@ -73,11 +74,11 @@ class insert_tokens_right_of_token_if_it_does_not_exist_before_token(structure.R
             lNewTokens.append(lTokens[0])
             if isinstance(lTokens[1], parser.whitespace) and isinstance(lTokens[2], parser.semicolon):
                 lNewTokens.append(lTokens[1])
-                lNewTokens.extend(self.insert_tokens)
+                lNewTokens.extend(copy.deepcopy(self.insert_tokens))
                 lNewTokens.extend(lTokens[2:])
             else:
                 lNewTokens.append(parser.whitespace(" "))
-                lNewTokens.extend(self.insert_tokens)
+                lNewTokens.extend(copy.deepcopy(self.insert_tokens))
                 lNewTokens.extend(lTokens[1:])
         else:
             dAction = oViolation.get_action()
